@@ -3,7 +3,7 @@
 //! collections, the two slices of a deque), `canon()` the logical normal form the
 //! model's decoder returns.  No borsh code is involved in any of this.
 
-use crate::gen::Gen;
+use crate::gen::{shape_below, shape_chance, shape_shuffle, Gen};
 use std::borrow::Cow;
 use std::cell::{Cell, RefCell};
 use std::collections::{BTreeMap, BTreeSet, LinkedList, VecDeque};
@@ -280,7 +280,7 @@ mod net {
         }
         fn gen(g: &mut Gen, d: u32) -> Self {
             // flow info and scope id are not carried by the format
-            let (f, s) = if g.chance(1, 2) { (0, 0) } else { (g.next() as u32, g.next() as u32) };
+            let (f, s) = if shape_chance(1, 2) { (0, 0) } else { (shape_below(1 << 32) as u32, shape_below(1 << 32) as u32) };
             SocketAddrV6::new(Ipv6Addr::gen(g, d), u16::gen(g, d), f, s)
         }
         fn val(&self, o: &mut String) {
@@ -432,7 +432,7 @@ impl<T: Dyn> Dyn for VecDeque<T> {
         let v = gen_vec::<T>(g, d);
         let n = v.len();
         let mut dq: VecDeque<T> = VecDeque::with_capacity(n.max(1));
-        let k = if n == 0 { 0 } else { g.below(n as u64 + 1) as usize };
+        let k = if n == 0 { 0 } else { shape_below(n as u64 + 1) as usize };
         let mut front = Vec::new();
         for (i, x) in v.into_iter().enumerate() {
             if i < k {
@@ -572,7 +572,13 @@ impl<T: Dyn + Ord> Dyn for BTreeSet<T> {
         format!("(set btree {})", T::ty())
     }
     fn gen(g: &mut Gen, d: u32) -> Self {
-        gen_keys::<T>(g, d).into_iter().collect()
+        let mut ks = gen_keys::<T>(g, d);
+        shape_shuffle(&mut ks);
+        let mut s = BTreeSet::new();
+        for k in ks {
+            s.insert(k);
+        }
+        s
     }
     fn val(&self, o: &mut String) {
         list(o, self.iter(), |x, o| x.val(o));
@@ -587,15 +593,16 @@ impl<T: Dyn + Ord + Hash + Eq, S: BuildHasher + Default> Dyn for HashSet<T, S> {
         format!("(set hash {})", T::ty())
     }
     fn gen(g: &mut Gen, d: u32) -> Self {
-        let ks = gen_keys::<T>(g, d);
+        let mut ks = gen_keys::<T>(g, d);
+        shape_shuffle(&mut ks);
         let mut s: HashSet<T, S> = HashSet::with_hasher(S::default());
-        if g.chance(1, 3) {
-            s.reserve(g.below(64) as usize);
+        if shape_chance(1, 3) {
+            s.reserve(shape_below(64) as usize);
         }
         for k in ks {
             s.insert(k);
         }
-        if g.chance(1, 4) {
+        if shape_chance(1, 4) {
             s.shrink_to_fit();
         }
         s
@@ -657,7 +664,14 @@ impl<K: Dyn + Ord, V: Dyn> Dyn for BTreeMap<K, V> {
         format!("(map btree {} {})", K::ty(), V::ty())
     }
     fn gen(g: &mut Gen, d: u32) -> Self {
-        gen_keys::<K>(g, d).into_iter().map(|k| (k, V::gen(g, d + 1))).collect()
+        let mut kvs: Vec<(K, V)> =
+            gen_keys::<K>(g, d).into_iter().map(|k| (k, V::gen(g, d + 1))).collect();
+        shape_shuffle(&mut kvs);
+        let mut m = BTreeMap::new();
+        for (k, v) in kvs {
+            m.insert(k, v);
+        }
+        m
     }
     fn val(&self, o: &mut String) {
         entries(o, self.iter(), false);
@@ -673,14 +687,16 @@ impl<K: Dyn + Ord + Hash + Eq, V: Dyn, S: BuildHasher + Default> Dyn for HashMap
     }
     fn gen(g: &mut Gen, d: u32) -> Self {
         let ks = gen_keys::<K>(g, d);
+        let mut kvs: Vec<(K, V)> = ks.into_iter().map(|k| (k, V::gen(g, d + 1))).collect();
+        shape_shuffle(&mut kvs);
         let mut m: HashMap<K, V, S> = HashMap::with_hasher(S::default());
-        if g.chance(1, 3) {
-            m.reserve(g.below(64) as usize);
+        if shape_chance(1, 3) {
+            m.reserve(shape_below(64) as usize);
         }
-        for k in ks {
-            m.insert(k, V::gen(g, d + 1));
+        for (k, v) in kvs {
+            m.insert(k, v);
         }
-        if g.chance(1, 4) {
+        if shape_chance(1, 4) {
             m.shrink_to_fit();
         }
         m
@@ -895,10 +911,10 @@ macro_rules! dyn_range_incl {
                 let b = if g.chance(1, 3) { a } else { <$t>::gen(g, d + 1) };
                 let mut r = a..=b;
                 // the `exhausted` flag is not carried by the format
-                if g.chance(1, 3) {
-                    while r.next().is_some() && g.chance(1, 2) {}
+                if shape_chance(1, 3) {
+                    while r.next().is_some() && shape_chance(1, 2) {}
                 }
-                if g.chance(1, 4) && a == b {
+                if shape_chance(1, 4) && a == b {
                     let _ = r.next();
                 }
                 r
